@@ -97,7 +97,14 @@ def clauses (prop : String) (inst : Instance) (es : List Ev) (outs : List EvOut)
   match prop with
   | "C04" =>
     if closed || !leftover.isEmpty then [("no_panic", noPanic)]
-    else [("no_panic", noPanic), ("dispatch_exact_in_order", cmdsMatch expectCmds allCmds)]
+    else
+      -- the daemon answers with the identity record exactly once per VALID upgrade frame (a frame it must reject - reserved
+      -- flag bits, wrong size - gets no answer and changes nothing)
+      let (wf0, _) := writtenFrames (outs.flatMap (·.written))
+      let instBytes0 := sendPacket (.inst inst)
+      let nInst := (wf0.filter fun f => f.bytes == instBytes0).length
+      [("no_panic", noPanic), ("dispatch_exact_in_order", cmdsMatch expectCmds allCmds),
+       ("one_identity_record_per_valid_upgrade", nInst == (fs.filterMap validUpgrade).length)]
   | "C03" =>
     if closed && !wellFormedPrefix then
       -- the stream contains a header the daemon rejects: which registration is "current" when the client disappears is then
